@@ -92,15 +92,35 @@ CHECKS["C16"] = dict(
   note="Trusted: wire serialisation/hash functions; callers do not mutate the wire message after wrapping it.",
   ref="§3 C16")
 CHECKS["C18"] = dict(
-  technique="origin / write-effect analysis (non-destructiveness, comparator purity), structural match of Swap, agreement of the sortable view types across the three entry points, field-read sets of the comparators",
-  text="Sort sorts the slices of a fresh deep copy (not the argument's), returns that copy and writes nothing reachable from its parameter; Len and Less write only their locals and Swap exchanges exactly s[i] and s[j] (so the result is a permutation); InPlaceSort, Sort and IsSorted order inputs and outputs through the same two sortable types (one order, hence idempotence of sort then isSorted) and the comparators read exactly (previous hash, previous index) and (value, script). That the comparator is the BIP69 order for all keys (byte reversal, tie rules) is not decided.",
-  note="Trusted: wire.MsgTx.Copy deep-copies; sort.Sort permutes only via Swap.",
+  technique="origin / write-effect analysis (non-destructiveness, comparator purity), structural match of Swap, agreement of the sortable view types; decision of each comparator over the finite set of orderings of its key fields (abstract evaluation of its CFG, no byte values) plus structural recognition of the complete mirror-swap reversal / byte walk that makes the transaction id big-endian",
+  text="Sort sorts the slices of a fresh deep copy (not the argument's), returns that copy and writes nothing reachable from its parameter; Len and Less write only their locals and Swap exchanges exactly s[i] and s[j] (so the result is a permutation); InPlaceSort, Sort and IsSorted order inputs and outputs through the same two sortable types (one order, hence idempotence). Each comparator consults its elements only through order relations on the BIP69 key fields (anything else, e.g. a length, is reported undecided) and, evaluated over every consistent ordering (15 for inputs, 9 for outputs), agrees with the BIP69 order; the previous transaction id is compared from its last stored byte down to the first (both 32-byte copies reversed by a complete mirror-swap loop before bytes.Compare, or a byte walk from index 31 to 0). bytes.Compare, sort.Sort and MsgTx.Copy themselves are trusted, not decided.",
+  note="Trusted: wire.MsgTx.Copy deep-copies every field; sort.Sort permutes only via Swap and decides only via Less; bytes.Compare is the lexicographic order.",
   ref="§3 C18, §2.5")
 CHECKS["C19"] = dict(
-  technique="pairing rule over go/ssa: every list mutation is accompanied, in the same straight-line region, by the matching update of both totals with the same coin (who-may-write for the totals); index-consistency, loop-guard entailment and origin analysis for the selectors",
-  text="Totals clause decided for all histories: every PushBack/Remove on a coin set's list sits in a function that adds/subtracts that same coin's Value() and ValueAge() to the respective total exactly once on every path through the mutation, bulk mutations are rejected, and no other function writes the totals; a transaction built from a set spends coins[i] at input i; the prefix scan pushes only while n < MaxInputs; the min-number and max-value-age selectors sort a fresh copy descending by Value()/ValueAge() and delegate with unchanged limits. The selectors' post-conditions (in particular the min-priority heuristic) are not decided.",
-  note="Trusted: container/list semantics; sort.Sort/Reverse.",
-  ref="§3 C19")
+  technique="pairing rule over go/ssa for the totals; forward data-flow (typestate) over every CoinSelect method tracking, per coin set, validity of the target predicate and of the average test for the current contents and a linear upper bound on the coin count (loop-counter invariants guessed and verified inductively, Fourier-Motzkin entailment at the returns); structural recognition of the prefix scan, of the rounded-up quotient and of the complement composition of the top-up; who-writes rule for further content-derived fields",
+  text="Totals clause decided for all histories: every PushBack/Remove on a coin set's list sits in a function that adds/subtracts that same coin's Value() and ValueAge() to the respective total exactly once on every path through the mutation, bulk mutations are rejected, no other function writes the totals, and any further field kept about the contents is written at every list mutation. A transaction built from a set spends coins[i] at input i. For every success return of every selector, on every path: the returned set's total satisfies satisfiesTargetValue(target, MinChangeAmount, total) for its current contents, it holds at most MaxInputs coins (linear entailment), and for the min-priority selector its average value-age meets the minimum (premises checked structurally: candidates sorted ascending by ValueAge, offered slice starts at the first coin meeting the minimum, top-up minimum is the rounded-up share of the missing value-age over at most L coins). The prefix scan pushes coins[0], coins[1], ... without skipping and tests the target after every push (shortest qualifying prefix); the min-number / max-value-age selectors sort a fresh copy descending by Value()/ValueAge() and delegate with unchanged limits. Three genuine defects found by these rules were fixed (F10-F12). Not decided: distinctness of the coins, overflow of the totals.",
+  note="Trusted: container/list semantics; sort.Sort/Reverse (in particular that sorting establishes the order the cut-off argument uses).",
+  ref="§3 C19, §11")
+
+ADDED = {
+ "C01": " Added during the build: DecodeAddress gives a verdict in its CashAddr stage only behind err == nil of the CashAddr decoder (entry length guard excepted with its premise), enters the public-key stage on the string's length alone, and refuses only for reasons drawn from the stage results (rejection vocabulary); script-taking constructors reject no script themselves; lazily cached renderings of an address follow what they were computed from (memo coherence).",
+ "C02": " Added during the build: no decoder rewrites its input with a normalising or Unicode case-mapping function, case flags test exact ASCII ranges, Base58 symbols are looked up per byte; a decoded legacy address is built from the decoded version byte and only after both registry lookups (collision test evaluated); all eight bits of the CashAddr version byte take part in its classification; the CashAddr decoder is handed the whole input, never a part of it.",
+ "C04": " Added during the build: NewMaster, Child and Neuter write nothing reachable from the seed, the parent key or package-level state (the public-key memo field excepted, kept coherent by C15.memo).",
+ "C05": " Added during the build: the string is not normalised before Base58 decoding; every rejection test of NewKeyFromString looks only at the decoded length, the checksum, the key-type byte and the validity of the key material (no further reason to refuse).",
+ "C06": " Added during the build: the string is not normalised before Base58 decoding; every rejection test of DecodeWIF looks only at the decoded length, the compression marker and the checksum (no white-list of network bytes); a cached serialisation may not depend on exported fields.",
+ "C08": " As built: 79 functions from 32 entry points (bloom.GetMatchedIndices added), 6 named exceptions; a recursion is also accepted when it is a graph walk behind a monotone visited set. One known finding (K3: exponential re-check in bloom.GetMatchedIndices) is listed in known_findings.json.",
+ "C09": " Added during the build: every branch of the bit-setting and bit-testing functions reads only the loaded message, the hashes of the item and the loop counter (no shadow state, no look at the item itself); a clear bit answers absent and exhausting the hash functions answers present; every exit of the hash helper returns the reduced hash; Add/AddHash/AddOutPoint/Matches/MatchesOutPoint and their outpoint helpers are branch-free serialise-and-delegate wrappers; LoadFilter and Reload install the message they are given.",
+ "C10": " Added during the build: each transaction's inputs enter the spender index unconditionally in the iteration that checks it; every (re-)check matches the transaction against the current filter; the filter is updated only for an output whose own data push matched (directly or through a flag local to that iteration).",
+ "C11": " Added during the build: the extractor applies no rejection rule beyond the specification's; each of the three builders collects matched positions inside the loop over the block's transactions by that loop's index (block order, no repeats); a node's flag is the OR of the matched bits of its leaf range.",
+ "C12": " Added during the build (after fixing defect F13): ExtractMatches resets both cursors, the latch and the two match lists before the traversal, so asking the same object twice cannot resume from a rejected traversal; the equal-children comparison sits in the same block as the right child's computation (no inner node is exempt).",
+ "C13": " Added during the build: in each query loop every decoded delta is accumulated and every element compared or indexed before the next read; the element reader assembles quotient*2^P + remainder at 64 bits with the filter's own P; every hashing loop ranges over the whole item list and hashes every element; the index map a query fills is allocated by that call (sync.Pool results are not fresh); the builder's Golomb-Rice writer is recognised as quotient one-bits, a zero bit, low P bits of the same delta (another encoder is reported undecided).",
+ "C14": " Added during the build: the range reduction is recognised as the schoolbook high-word product (another algorithm is reported undecided); the block-filter content rule is exact (no further exclusion); every successful return of GetFilterHash is DoubleHashH(NBytes); the builder's cached results follow the parameters they were built from (memo coherence); the shared Golomb-Rice writer recogniser.",
+ "C15": " Added during the build: C15.fresh covers every []byte buffer held by another key; lazily filled fields of a key (the public-key memo, any future one) are refreshed, dropped or wiped whenever what they were computed from is assigned.",
+ "C16": " Added during the build: every Block/Tx method indexing the caches is proved in range; the cached Tx hash is the wrapped message's own hash; every lazily filled field has a recognised write-once accessor; values from sync.Pool are not fresh memory; TxLoc returns the wire decoder's result over the block's own serialisation.",
+}
+for k, v in ADDED.items():
+    CHECKS[k]["text"] += v
+CHECKS["C08"]["text"] = CHECKS["C08"]["text"].replace("For all 73 in-repo functions", "For all in-repo functions").replace("(5 named exceptions, each with a premise the prover still checks)", "(named exceptions, each with a premise the prover still checks)")
 
 NA_REASON = {
  "C17": "Every clause with content is a statement about IEEE-754 rounding of f*1e8, a/10^k and shortest-decimal printing over 2.1e15 integers; no fact about the shape of amount.go implies or refutes it, and the two shape-level clauses (NaN/Inf rejected, unit labels) are already pinned by the suite (DESIGN.md §4).",
